@@ -244,7 +244,7 @@ def _protocol(ctx, g, x, root, fl, view):
             fail = set()
             for sid in x.switches():
                 e = g.strip(g.switch_expr(sid))
-                if e[0] == 'discr' and g.strip(e[1]) == ('call', C):
+                if e[0] == 'discr' and g.strip(e[1])[0] == 'call' and x.rep(g.strip(e[1])[1]) == x.rep(C):
                     succ.update(x.switch_edges(sid, '0'))
                     fail.update(x.switch_edges(sid, '1'))
             # failure: the speculative value is forgotten (move-out) / dropped (clone-out) before anything else
@@ -282,7 +282,7 @@ def _protocol(ctx, g, x, root, fl, view):
             if c.op in CAS_OPS:
                 for sid in x.switches():
                     e = g.strip(g.switch_expr(sid))
-                    if e[0] == 'discr' and g.strip(e[1]) == ('call', c.nid):
+                    if e[0] == 'discr' and g.strip(e[1])[0] == 'call' and x.rep(g.strip(e[1])[1]) == x.rep(c.nid):
                         succ_all.update(x.switch_edges(sid, '0'))
             else:
                 succ_all.add(c.nid)
@@ -306,7 +306,7 @@ def _protocol(ctx, g, x, root, fl, view):
         else:
             first_look_mm |= mm
     for (nid, si, rv) in disc:
-        if g.nodes[nid].inst == g.root_inst and not any(g.nodes[nid].fn.endswith(s) for s in ('::try_recv', '::try_recv_view')):
+        if x.home(nid) == g.root_inst and not any(g.nodes[nid].fn.endswith(s) for s in ('::try_recv', '::try_recv_view')):
             pass
         fn = g.nodes[nid].fn
         sub = '%s|disc#i%d.bb%d' % (rsub, g.nodes[nid].inst, g.nodes[nid].bb)
@@ -465,7 +465,7 @@ def _p5(ctx):
         one, _f, _h = x.eq_tests(lambda a_, b_: a_[0] == 'call' and x.rep(a_[1]) in x.atoms and
                                  x.atoms[x.rep(a_[1])].on('ReaderMeta.num_consumers') and is_const(b_, 1))
         for (nid, si, rv) in x.aggs(r'ReaderState::Single$'):
-            if g.nodes[nid].inst != g.root_inst:
+            if x.home(nid) != g.root_inst:
                 continue
             fresh = constructs(F, name, 'ReaderMeta')
             acq = [f_ for (f_, o, _) in x.fences if has_acquire(o) and x.dom(one, f_)]
